@@ -6,9 +6,10 @@
 #   4. plain, uninstrumented knut binary   -> .cache/bin/knut-plain
 # A content stamp over /repo and /verif sources skips the work when nothing changed.
 set -euo pipefail
-cd /verif
+ROOT="$(cd "$(dirname "${BASH_SOURCE[0]}")" && pwd)"
+cd "$ROOT"
 export GOFLAGS=-mod=mod GOPROXY=off GOSUMDB=off GOTOOLCHAIN=local
-export GOCACHE=/verif/.cache/go-build
+export GOCACHE="${KMC_GOCACHE:-/verif/.cache/go-build}"
 export CGO_ENABLED=0
 mkdir -p .cache/bin .cache/run
 exec 9>.cache/build.lock
@@ -23,7 +24,7 @@ build_race() {
   if [ "${1:-}" = "race" ]; then
     if [ ! -f .cache/race.stamp ] || [ "$(cat .cache/race.stamp)" != "$NEW" ] || [ ! -x .cache/bin/kmc-race ]; then
       rm -f .cache/race.stamp
-      (cd harness && CGO_ENABLED=1 go build -race -tags verif -overlay /verif/.cache/overlay/overlay.json -o ../.cache/bin/kmc-race ./cmd/kmc)
+      (cd harness && CGO_ENABLED=1 go build -race -tags verif -overlay "$ROOT/.cache/overlay/overlay.json" -o ../.cache/bin/kmc-race ./cmd/kmc)
       echo "$NEW" > .cache/race.stamp
     fi
   fi
@@ -36,8 +37,8 @@ rm -f .cache/build.stamp
 if [ ! -x .cache/bin/govirt ] || [ -n "$(find govirt -newer .cache/bin/govirt -name '*.go' 2>/dev/null)" ]; then
   (cd govirt && go build -o ../.cache/bin/govirt .)
 fi
-.cache/bin/govirt -repo /repo -rt /verif/rt -out /verif/.cache/overlay
-(cd harness && go build -tags verif -overlay /verif/.cache/overlay/overlay.json -o ../.cache/bin/kmc ./cmd/kmc)
-(cd /repo && go build -o /verif/.cache/bin/knut-plain .)
+.cache/bin/govirt -repo /repo -rt "$ROOT/rt" -out "$ROOT/.cache/overlay"
+(cd harness && go build -tags verif -overlay "$ROOT/.cache/overlay/overlay.json" -o ../.cache/bin/kmc ./cmd/kmc)
+(cd /repo && go build -o "$ROOT/.cache/bin/knut-plain" .)
 echo "$NEW" > .cache/build.stamp
 build_race "${1:-}"
